@@ -70,7 +70,7 @@ ArchetypeOperationHelper::ArchetypeOperationHelper(MemoryManager& memory_manager
         external_move_info.default_data = info.default_value.empty() ? nullptr : info.default_value.data();
         external_move_info.after_assign = info.functions.after_assign;
 
-        clone.push_back(CloneInfo{info.functions.clone});
+        clone.push_back(CloneInfo{info.functions.clone, info.functions.copy, info.size});
         if (info.functions.after_clone) {
             auto& after_clone_info = after_clone.emplace_back();
             after_clone_info.after_clone = info.functions.after_clone;
